@@ -283,7 +283,7 @@ Qed.
    lengths kept; name, options reference, uuid, link of a feature and the context of an Options object never written;
    flag only raised, compute_frameworks only set when unset, data_type only set when unset; group options only extended by
    the keys ApiInputData / strict_type_enforcement; and nothing at all unless copy_features=False and the object is a
-   requested feature / the Options object of a requested feature.  GlobalFilter.filters is never written. *)
+   requested feature / the Options object of a requested feature. *)
 Lemma prepare_args_effect_l : forall u fuel w c,
   Inv (if c_copy c then [] else c_feats c) (hF w, hO w)
       (hF (fst (plan_call u fuel w c)), hO (fst (plan_call u fuel w c))) /\
@@ -299,24 +299,29 @@ Proof.
     rewrite EF, EO, E1, E2. split; [exact L1|]. split; [exact L2|]. split; [exact IF | exact IO].
 Qed.
 
-(* ------------------------------------------------------------------ links set and filter collection only grow *)
-Lemma link_add_incl : forall s x, incl s (link_add s x).
-Proof. intros s x y Hy. unfold link_add. destruct (link_in x s); [exact Hy | apply in_or_app; left; exact Hy]. Qed.
-Lemma link_add_new : forall s x y, In y (link_add s x) -> In y s \/ y = x.
+(* ------------------------------------------------------------------ the links set and the GlobalFilter are only read *)
+Lemma caller_objects_untouched_l : forall u fuel w c,
+  w_links (fst (plan_call u fuel w c)) = w_links w /\
+  w_filters (fst (plan_call u fuel w c)) = w_filters w /\
+  w_coll (fst (plan_call u fuel w c)) = w_coll w.
 Proof.
-  intros s x y H. unfold link_add in H. destruct (link_in x s); [left; exact H|].
-  apply in_app_or in H. destruct H as [H|[H|[]]]; auto.
+  intros u fuel w c. unfold plan_call. destruct (traverse u fuel w c) as [h1 [e|[st e]]]; [cbn; auto|].
+  destruct (c_links c && negb (validate_links (w_links w))); cbn; auto.
 Qed.
-Lemma apply_links_incl : forall log L, incl L (apply_links L log).
+
+Lemma links_set_untouched_l : forall u fuel w c, w_links (fst (plan_call u fuel w c)) = w_links w.
+Proof. intros u fuel w c. exact (proj1 (caller_objects_untouched_l u fuel w c)). Qed.
+Lemma filter_object_untouched_l : forall u fuel w c,
+  w_filters (fst (plan_call u fuel w c)) = w_filters w /\ w_coll (fst (plan_call u fuel w c)) = w_coll w.
+Proof. intros u fuel w c. exact (proj2 (caller_objects_untouched_l u fuel w c)). Qed.
+Lemma prepare_args_effect_full_l : forall u fuel w c,
+  Inv (if c_copy c then [] else c_feats c) (hF w, hO w)
+      (hF (fst (plan_call u fuel w c)), hO (fst (plan_call u fuel w c))) /\
+  w_links (fst (plan_call u fuel w c)) = w_links w /\
+  w_filters (fst (plan_call u fuel w c)) = w_filters w /\
+  w_coll (fst (plan_call u fuel w c)) = w_coll w.
 Proof.
-  induction log as [|x log IH]; intros L; [apply incl_refl|]. cbn.
-  eapply incl_tran; [apply (link_add_incl L x) | apply IH].
-Qed.
-Lemma apply_links_new : forall log L y, In y (apply_links L log) -> In y L \/ In y log.
-Proof.
-  induction log as [|x log IH]; intros L y H; [left; exact H|]. cbn in H.
-  destruct (IH _ _ H) as [H1|H1]; [|right; right; exact H1].
-  destruct (link_add_new _ _ _ H1) as [H2|H2]; [left; exact H2 | right; left; congruence].
+  intros u fuel w c. split; [exact (proj1 (prepare_args_effect_l u fuel w c)) | exact (caller_objects_untouched_l u fuel w c)].
 Qed.
 
 Lemma key_eqb_eq : forall a b, key_eqb a b = true <-> a = b.
@@ -325,53 +330,17 @@ Proof.
   split; [intros [-> ->]; reflexivity | intros H; injection H as -> ->; auto].
 Qed.
 
-Lemma fset_add_incl : forall s x, incl s (fset_add s x).
-Proof. intros s x y Hy. unfold fset_add. destruct (flt_in x s); [exact Hy | apply in_or_app; left; exact Hy]. Qed.
-
-Lemma coll_add_get_incl : forall c k' y k, incl (coll_get c k) (coll_get (coll_add c k' y) k).
+Lemma link_add_incl : forall s x, incl s (link_add s x).
+Proof. intros s x y Hy. unfold link_add. destruct (link_in x s); [exact Hy | apply in_or_app; left; exact Hy]. Qed.
+Lemma link_add_new : forall s x y, In y (link_add s x) -> In y s \/ y = x.
 Proof.
-  induction c as [|[k0 s] c IH]; intros k' y k x Hx; [destruct Hx|]. cbn in *.
-  destruct (key_eqb k' k0) eqn:E1; cbn.
-  - destruct (key_eqb k k0); [apply fset_add_incl; exact Hx | exact Hx].
-  - destruct (key_eqb k k0); [exact Hx | apply IH; exact Hx].
-Qed.
-Lemma apply_coll_get_incl : forall log C k, incl (coll_get C k) (coll_get (apply_coll C log) k).
-Proof.
-  induction log as [|[k' y] log IH]; intros C k; [apply incl_refl|]. cbn.
-  eapply incl_tran; [apply coll_add_get_incl | apply IH].
+  intros s x y H. unfold link_add in H. destruct (link_in x s); [left; exact H|].
+  apply in_app_or in H. destruct H as [H|[H|[]]]; auto.
 Qed.
 
+(* the links the Engine adds to ITS set during a call *)
 Definition call_ladds (u : universe) (fuel : nat) (w : world) (c : call) : list link :=
   match traverse u fuel w c with (_, inr (st, _)) => r_ladds (p_r st) | (_, inl _) => [] end.
-
-(* the caller's links set: never shrinks; untouched when links=None is passed; otherwise it is left as it was or it
-   receives exactly the add calls of the traversal *)
-Lemma links_set_grows_l : forall u fuel w c,
-  incl (w_links w) (w_links (fst (plan_call u fuel w c))) /\
-  (c_links c = false -> w_links (fst (plan_call u fuel w c)) = w_links w) /\
-  (w_links (fst (plan_call u fuel w c)) = w_links w \/
-   w_links (fst (plan_call u fuel w c)) = apply_links (w_links w) (call_ladds u fuel w c)).
-Proof.
-  intros u fuel w c. unfold plan_call, call_ladds. destruct (traverse u fuel w c) as [h1 [e|[st e]]].
-  - cbn. destruct (c_links c); (split; [apply incl_refl | split; [reflexivity || (intros; discriminate) | left; reflexivity]]).
-  - destruct (c_links c) eqn:El; cbn [andb].
-    + destruct (negb (validate_links (w_links w))); cbn; rewrite ?El.
-      * split; [apply incl_refl | split; [intros; discriminate | left; reflexivity]].
-      * split; [apply apply_links_incl | split; [intros; discriminate | right; reflexivity]].
-    + cbn. rewrite ?El. split; [apply incl_refl | split; [reflexivity | left; reflexivity]].
-Qed.
-
-(* the caller's GlobalFilter.collection: entries are only ever added *)
-Lemma filter_collection_accumulates_l : forall u fuel w c,
-  (forall k, incl (coll_get (w_coll w) k) (coll_get (w_coll (fst (plan_call u fuel w c))) k)) /\
-  (c_filter c = false -> w_coll (fst (plan_call u fuel w c)) = w_coll w).
-Proof.
-  intros u fuel w c. unfold plan_call. destruct (traverse u fuel w c) as [h1 [e|[st e]]].
-  - cbn. destruct (c_filter c); split; auto using incl_refl.
-  - destruct (c_links c && negb (validate_links (w_links w))); cbn; destruct (c_filter c); split; auto using incl_refl.
-    + intros k. apply apply_coll_get_incl.
-    + intros; discriminate.
-Qed.
 
 (* ------------------------------------------------------------------ invariants of the traversal *)
 Definition PInv (st : rst) : Prop :=
@@ -500,87 +469,7 @@ Proof.
   destruct (phase2 _ _ _ _ _ _) as [st e]. exact HP.
 Qed.
 
-(* ------------------------------------------------------------------ re-passing the GlobalFilter object *)
-Definition set_coll (w : world) (C : fcoll) : world :=
-  {| hF := hF w; hO := hO w; w_links := w_links w; w_filters := w_filters w; w_coll := C |}.
-
-Lemma traverse_set_coll : forall u fuel w C c, traverse u fuel (set_coll w C) c = traverse u fuel w c.
-Proof. reflexivity. Qed.
-
-Lemma coll_add_app : forall C0 X k x, (forall kv, In kv C0 -> key_eqb k (fst kv) = false) ->
-  coll_add (C0 ++ X) k x = C0 ++ coll_add X k x.
-Proof.
-  induction C0 as [|[k0 s] C0 IH]; intros X k x H; [reflexivity|]. cbn.
-  pose proof (H (k0, s) (or_introl eq_refl)) as E. cbn [fst] in E. rewrite E. f_equal. apply IH. intros kv Hk. apply H. right; exact Hk.
-Qed.
-
-Lemma apply_coll_app : forall C0 log X,
-  (forall kx, In kx log -> forall kv, In kv C0 -> key_eqb (fst kx) (fst kv) = false) ->
-  apply_coll (C0 ++ X) log = C0 ++ apply_coll X log.
-Proof.
-  intros C0 log. induction log as [|[k x] log IH]; intros X H; [reflexivity|]. cbn [apply_coll fold_left fst snd].
-  rewrite coll_add_app by (intros kv Hk; apply (H (k, x) (or_introl eq_refl) kv Hk)).
-  apply IH. intros kx Hx. apply H. right; exact Hx.
-Qed.
-
-Lemma matching_sets_app : forall C0 X gid names,
-  (forall kv, In kv C0 -> (Nat.eqb (fst (fst kv)) gid && existsb (String.eqb (snd (fst kv))) names) = false) ->
-  matching_sets (C0 ++ X) gid names = matching_sets X gid names.
-Proof.
-  intros C0 X gid names H. unfold matching_sets. rewrite filter_app, map_app.
-  replace (filter _ C0) with (@nil (key * list flt)); [reflexivity|].
-  symmetry. induction C0 as [|kv C0 IH]; [reflexivity|]. cbn. rewrite (H kv (or_introl eq_refl)).
-  apply IH. intros kv' Hk. apply H. right; exact Hk.
-Qed.
-
-Lemma step_reps_incl : forall l seen r, In r (step_reps l seen) -> In r l.
-Proof.
-  induction l as [|p l IH]; intros seen r H; [destruct H|]. cbn in H.
-  destruct (existsb (same_step p) seen); [right; eapply IH; exact H|].
-  destruct H as [<-|H]; [left; reflexivity | right; eapply IH; exact H].
-Qed.
-
-Lemma attach_app : forall C0 X stored, (forall kv, In kv C0 -> touches stored (fst kv) = false) ->
-  forall reps, incl reps stored -> attach (C0 ++ X) stored reps = attach X stored reps.
-Proof.
-  intros C0 X stored HT reps. induction reps as [|r reps IH]; intros Hi; [reflexivity|]. cbn [attach].
-  rewrite IH by (intros x Hx; apply Hi; right; exact Hx). unfold step_filters.
-  rewrite matching_sets_app; [reflexivity|].
-  intros kv Hk. destruct (Nat.eqb (fst (fst kv)) (pf_gid r) && existsb (String.eqb (snd (fst kv))) (step_names stored r)) eqn:E; [|reflexivity].
-  exfalso. apply andb_true_iff in E. destruct E as [E1 E2]. apply Nat.eqb_eq in E1.
-  apply existsb_exists in E2. destruct E2 as (n & Hn & En). apply String.eqb_eq in En.
-  unfold step_names in Hn. apply in_map_iff in Hn. destruct Hn as (p & Hp & Hpf). apply filter_In in Hpf. destruct Hpf as [Hps Hss].
-  unfold same_step in Hss. apply andb_true_iff in Hss. destruct Hss as [Hg _]. apply Nat.eqb_eq in Hg.
-  assert (T : touches stored (fst kv) = true).
-  { unfold touches. apply existsb_exists. exists p. split; [exact Hps|].
-    rewrite <- Hg, <- E1, Nat.eqb_refl, Hp, <- En, String.eqb_refl. reflexivity. }
-  exact (eq_true_false_abs _ T (HT kv Hk)).
-Qed.
-
-(* Outside kf_filter_touched the outcome of a call given a GlobalFilter whose collection was filled by earlier calls is
-   EXACTLY the outcome with a collection that starts empty (a fresh GlobalFilter with equal filters). *)
-Lemma filter_reuse_partial_l : forall u fuel w c, kf_filter_touched u fuel w c = false ->
-  snd (plan_call u fuel w c) = snd (plan_call u fuel (set_coll w []) c).
-Proof.
-  intros u fuel w c Hk. unfold plan_call. rewrite traverse_set_coll.
-  pose proof (call_adds_provenance_l u fuel w c) as [_ HP]. unfold kf_filter_touched, call_products in *.
-  destruct (traverse u fuel w c) as [h1 [e|[st e]]]; [reflexivity|]. cbn [w_links w_coll set_coll snd fst] in *.
-  destruct (c_links c && negb (validate_links (w_links w))); [reflexivity|]. cbn [snd].
-  destruct e as [e|]; [reflexivity|]. unfold filter_outcome. destruct (c_filter c) eqn:Ef; [|reflexivity].
-  cbn [andb] in Hk.
-  assert (HT : forall kv, In kv (w_coll w) -> touches (p_stored st) (fst kv) = false).
-  { intros kv Hin. destruct (touches (p_stored st) (fst kv)) eqn:E; [|reflexivity].
-    assert (X : existsb (fun kv => touches (p_stored st) (fst kv)) (w_coll w) = true) by (apply existsb_exists; eauto).
-    rewrite X in Hk. discriminate. }
-  assert (EC : apply_coll (w_coll w) (r_fadds (p_r st)) = w_coll w ++ apply_coll [] (r_fadds (p_r st))).
-  { rewrite <- (app_nil_r (w_coll w)) at 1. apply apply_coll_app. intros kx Hx kv Hkv.
-    destruct (key_eqb (fst kx) (fst kv)) eqn:E; [|reflexivity]. apply key_eqb_eq in E.
-    pose proof (HP kx Hx) as T. rewrite E, (HT kv Hkv) in T. discriminate. }
-  rewrite EC, attach_app; [reflexivity | exact HT|].
-  intros r Hr. eapply step_reps_incl; exact Hr.
-Qed.
-
-(* ------------------------------------------------------------------ re-passing the links set *)
+(* ------------------------------------------------------------------ the order of the links set is irrelevant *)
 Lemma list_eqb_eq : forall A (e : A -> A -> bool), (forall x y, e x y = true <-> x = y) ->
   forall a b, list_eqb e a b = true <-> a = b.
 Proof.
@@ -671,31 +560,35 @@ Qed.
 (* ------------------------------------------------------------------ histories *)
 Notation after_w u fuel := (after world call outcome (plan_call u fuel)).
 
-Lemma history_links_filters : forall u fuel cs w,
-  incl (w_links w) (w_links (after_w u fuel w cs)) /\ w_filters (after_w u fuel w cs) = w_filters w.
+Lemma world_eq : forall w w', hF w' = hF w -> hO w' = hO w -> w_links w' = w_links w -> w_filters w' = w_filters w ->
+  w_coll w' = w_coll w -> w' = w.
+Proof. intros [a b c d e] [a' b' c' d' e']; cbn; intros; subst; reflexivity. Qed.
+
+(* a call with copy_features=True leaves the whole world of the caller as it was *)
+Lemma call_leaves_world_l : forall u fuel w c, c_copy c = true -> fst (plan_call u fuel w c) = w.
 Proof.
-  intros u fuel cs. induction cs as [|c cs IH]; intros w; [split; [apply incl_refl | reflexivity]|]. cbn [after].
-  destruct (IH (fst (plan_call u fuel w c))) as [A B]. destruct (links_set_grows_l u fuel w c) as [C _].
-  destruct (prepare_args_effect_l u fuel w c) as [_ D]. split; [eapply incl_tran; eassumption | congruence].
+  intros u fuel w c Hc. destruct (copy_features_frame_l u fuel w c Hc) as [A B].
+  destruct (caller_objects_untouched_l u fuel w c) as (C & D & E). apply world_eq; assumption.
 Qed.
 
-(* The reuse half of the property, outside the two known-defect domains: after ANY sequence of calls that used
-   copy_features=True, a call given the same Feature / Options / links / GlobalFilter objects has the outcome of the same
-   call given the pristine objects (collection of the pristine GlobalFilter empty). *)
-Lemma args_reuse_partial_l : forall u fuel w0 cs c, w_coll w0 = [] -> forallb c_copy cs = true ->
-  kf_links w0 (after_w u fuel w0 cs) c = false -> kf_filter_touched u fuel (after_w u fuel w0 cs) c = false ->
-  outcome_sim (snd (plan_call u fuel (after_w u fuel w0 cs) c)) (snd (plan_call u fuel w0 c)).
+Lemma history_leaves_world_l : forall u fuel cs w, forallb c_copy cs = true -> after_w u fuel w cs = w.
 Proof.
-  intros u fuel w0 cs c H0 Hc HkL HkF. set (w := after_w u fuel w0 cs) in *.
-  rewrite (filter_reuse_partial_l u fuel w c HkF).
-  destruct (copy_features_frame_history_l u fuel cs w0 Hc) as [EF EO]. fold w in EF, EO.
-  destruct (history_links_filters u fuel cs w0) as [IL Ef]. fold w in IL, Ef.
-  apply links_reuse_partial_l; cbn [set_coll hF hO w_filters w_coll w_links]; auto.
-  intros El x. unfold kf_links in HkL. rewrite El in HkL. cbn [andb] in HkL. apply negb_false_iff in HkL.
-  apply links_sub_incl in HkL. split; [apply HkL | apply IL].
+  intros u fuel cs. induction cs as [|c cs IH]; intros w H; [reflexivity|]. cbn in H. apply andb_true_iff in H.
+  destruct H as [Hc Hcs]. cbn [after]. rewrite (call_leaves_world_l u fuel w c Hc). apply IH. exact Hcs.
 Qed.
 
-(* ------------------------------------------------------------------ concrete witnesses (closed terms, vm_compute) *)
+(* The reuse half of the property at full strength: after ANY sequence of copy_features=True calls, a call given the same
+   Feature / Options / links / GlobalFilter objects returns exactly what it returns given the pristine objects (and
+   leaves them in the same state). *)
+Lemma args_reuse_l : forall u fuel w0 cs c, forallb c_copy cs = true ->
+  plan_call u fuel (after_w u fuel w0 cs) c = plan_call u fuel w0 c.
+Proof. intros u fuel w0 cs c H. rewrite (history_leaves_world_l u fuel cs w0 H). reflexivity. Qed.
+
+Lemma args_prefix_independent_l : forall u fuel w0,
+  prefix_independent world call outcome (plan_call u fuel) (fun _ pre _ => forallb c_copy pre = true) eq w0.
+Proof. intros u fuel w0 pre c H. cbv beta in H. rewrite (args_reuse_l u fuel w0 pre c H). reflexivity. Qed.
+
+(* ------------------------------------------------------------------ concrete instances (closed terms, vm_compute) *)
 Open Scope string_scope.
 Definition gR (i : nat) : ginfo := {| gi_id := i; gi_cfw := [0]; gi_api := false; gi_dtype := None; gi_inputs := [] |}.
 (* group 0: root with columns a, b;  group 1: root with column c;  group 2: g1 = f(a, c) *)
@@ -719,52 +612,19 @@ Definition cl (fs : list nat) (copy lnk fil : bool) (api : option cols) : call :
 Definition is_accepted (o : outcome) : bool := match o with Accepted _ _ => true | _ => false end.
 Definition seen_links (o : outcome) : list link := match o with Accepted _ l => l | _ => [] end.
 
-(* call 1 [b{x:1}], call 2 [a{x:2}], same GlobalFilter: rejected; with a fresh equal filter: accepted *)
-Lemma filter_reuse_refuted_l :
-  let c1 := cl [0] true false true None in let c2 := cl [1] true false true None in
-  let w1 := fst (plan_call exu 8 (exw []) c1) in
-  is_accepted (snd (plan_call exu 8 (exw []) c1)) = true /\
-  hF w1 = hF (exw []) /\ hO w1 = hO (exw []) /\ w_filters w1 = w_filters (exw []) /\
-  snd (plan_call exu 8 w1 c2) = Failed ERejected /\
-  is_accepted (snd (plan_call exu 8 (exw []) c2)) = true /\
-  kf_filter exu 8 w1 c2 = true /\ kf_filter_touched exu 8 w1 c2 = true.
-Proof. vm_compute. repeat split; reflexivity. Qed.
-
-(* the witness of the design notes: [a{x:1}], then [a{x:2}, b{x:2}] *)
-Lemma filter_reuse_refuted2_l :
-  let c1 := cl [2] true false true None in let c2 := cl [1; 3] true false true None in
-  let w1 := fst (plan_call exu 8 (exw []) c1) in
-  snd (plan_call exu 8 w1 c2) = Failed ERejected /\ is_accepted (snd (plan_call exu 8 (exw []) c2)) = true /\
-  kf_filter exu 8 w1 c2 = true.
-Proof. vm_compute. repeat split; reflexivity. Qed.
-
-(* the collection entry a prepared session's feature set refers to (FeatureSet.add_filters keeps the set object of
-   GlobalFilter.collection) grows when a later call uses the same GlobalFilter: [a{x:1}] then [a{x:2}], both accepted *)
-Lemma filter_entry_of_earlier_session_grows_l :
-  let c1 := cl [2] true false true None in let c2 := cl [1] true false true None in
-  let w1 := fst (plan_call exu 8 (exw []) c1) in let w2 := fst (plan_call exu 8 w1 c2) in
-  is_accepted (snd (plan_call exu 8 (exw []) c1)) = true /\ is_accepted (snd (plan_call exu 8 w1 c2)) = true /\
-  List.length (coll_get (w_coll w1) (0, "a")) = 1 /\ List.length (coll_get (w_coll w2) (0, "a")) = 2 /\
-  fset_eqb (coll_get (w_coll w1) (0, "a")) (coll_get (w_coll w2) (0, "a")) = false.
-Proof. vm_compute. repeat split; reflexivity. Qed.
-
-(* call 1 requests a feature that carries a Link, links = the caller's (empty) set S; call 2 requests g1 (needs a and c
-   from two groups) with the same S: the resolver now sees a link the caller never put into S *)
-Lemma links_reuse_refuted_l :
-  let c1 := cl [4] true true false None in let c2 := cl [5] true true false None in
-  let w1 := fst (plan_call exu 8 (exw []) c1) in
-  hF w1 = hF (exw []) /\ w_links w1 = [Linner] /\
-  seen_links (snd (plan_call exu 8 w1 c2)) = [Linner] /\ seen_links (snd (plan_call exu 8 (exw []) c2)) = [] /\
-  is_accepted (snd (plan_call exu 8 w1 c2)) = true /\ is_accepted (snd (plan_call exu 8 (exw []) c2)) = true /\
-  kf_links (exw []) w1 c2 = true.
-Proof. vm_compute. repeat split; reflexivity. Qed.
-
-(* S = {inner(0,1)}; call 1 requests a feature carrying left(0,1); every later call with S is rejected by LinkValidator *)
-Lemma links_reuse_refuted2_l :
-  let c1 := cl [6] true true false None in let c2 := cl [5] true true false None in
-  let w1 := fst (plan_call exu 8 (exw [Linner]) c1) in
-  w_links w1 = [Linner; Lleft] /\ snd (plan_call exu 8 w1 c2) = Failed ELinks /\
-  is_accepted (snd (plan_call exu 8 (exw [Linner]) c2)) = true /\ kf_links (exw [Linner]) w1 c2 = true.
+(* the former witnesses of the two repaired findings now behave like fresh objects:
+   [b{x:1}] then [a{x:2}] with the same GlobalFilter; [a{x:1}] then [a{x:2}, b{x:2}]; a feature carrying a Link and the
+   caller's (empty) set S, then g1 with S; S = {inner}, a feature carrying left(0,1), then g1 with S *)
+Lemma former_witnesses_l :
+  let run2 w c1 c2 := snd (plan_call exu 8 (fst (plan_call exu 8 w c1)) c2) in
+  is_accepted (run2 (exw []) (cl [0] true false true None) (cl [1] true false true None)) = true /\
+  is_accepted (run2 (exw []) (cl [2] true false true None) (cl [1; 3] true false true None)) = true /\
+  w_coll (fst (plan_call exu 8 (exw []) (cl [2] true false true None))) = [] /\
+  w_links (fst (plan_call exu 8 (exw []) (cl [4] true true false None))) = [] /\
+  seen_links (snd (plan_call exu 8 (exw []) (cl [4] true true false None))) = [Linner] /\
+  seen_links (run2 (exw []) (cl [4] true true false None) (cl [5] true true false None)) = [] /\
+  w_links (fst (plan_call exu 8 (exw [Linner]) (cl [6] true true false None))) = [Linner] /\
+  is_accepted (run2 (exw [Linner]) (cl [6] true true false None) (cl [5] true true false None)) = true.
 Proof. vm_compute. repeat split; reflexivity. Qed.
 
 (* copy_features=False: the feature and its Options object are written (flag, compute framework, ApiInputData key); passing
@@ -782,14 +642,10 @@ Lemma feature_reuse_nocopy_refuted_l :
                               (cl [1] true false false (Some api2)))) = true.
 Proof. vm_compute. repeat split; reflexivity. Qed.
 
-(* repeating a call with the same GlobalFilter: inside kf_filter_touched (the proved theorem does not cover it), outside the
-   narrower kf_filter, and the outcome is that of the pristine objects *)
+(* a non-trivial instance of args_reuse: filtered calls, a link-carrying feature, then a joined feature *)
 Lemma args_reuse_example_l :
-  let cs := [cl [2] true false true None; cl [2] true false true None] in
-  let c := cl [2] true false true None in
-  kf_links (exw []) (after world call outcome (plan_call exu 8) (exw []) cs) c = false /\
-  kf_filter exu 8 (after world call outcome (plan_call exu 8) (exw []) cs) c = false /\
-  kf_filter_touched exu 8 (after world call outcome (plan_call exu 8) (exw []) cs) c = true /\
-  outcome_eqb (snd (plan_call exu 8 (after world call outcome (plan_call exu 8) (exw []) cs) c))
-              (snd (plan_call exu 8 (exw []) c)) = true.
-Proof. vm_compute. repeat split; reflexivity. Qed.
+  let cs := [cl [2] true false true None; cl [0; 1] true false true None; cl [4] true true false None] in
+  let c := cl [5; 2] true true true None in
+  after world call outcome (plan_call exu 8) (exw [Linner]) cs = exw [Linner] /\
+  is_accepted (snd (plan_call exu 8 (after world call outcome (plan_call exu 8) (exw [Linner]) cs) c)) = true.
+Proof. vm_compute. split; reflexivity. Qed.
